@@ -55,16 +55,17 @@ theorem C18_layers_step_reject_unchanged {s s' : State} {op : Op} {e : Err}
   | cellGet2 l c => simp only [step, Prod.mk.injEq] at h; exact h.1.symm
   | setCells l w cond =>
     cases w with
-    | raw v => simp only [step] at h; unfold setCells at h; reject_branches
-    | py x => simp only [step] at h; unfold setCellsV setCells at h; reject_branches
+    | raw v => simp only [step] at h; unfold vecGuard setCells at h; reject_branches
+    | py x => simp only [step] at h; unfold vecGuard setCellsV setCells at h; reject_branches
   | setFrom l hd cond => simp only [step] at h; unfold setFrom at h; reject_branches
-  | modifyCells l f cond => simp only [step] at h; unfold modifyCells at h; reject_branches
-  | modifyT l f cond rd => simp only [step] at h; unfold modifyCellsT at h; reject_branches
-  | modifyU l op x cond => simp only [step] at h; unfold modifyU modifyCellsT at h; reject_branches
+  | modifyCells l vec f cond => simp only [step] at h; unfold vecGuard modifyCells at h; reject_branches
+  | modifyT l f cond rd => simp only [step] at h; unfold vecGuard modifyCellsT at h; reject_branches
+  | modifyU l vec op x cond => simp only [step] at h; unfold vecGuard modifyU modifyCellsT at h; reject_branches
   | modifyCell l c f => simp only [step] at h; unfold modifyCell at h; reject_branches
   | modifyCellU l c op x => simp only [step] at h; unfold modifyCellU modifyCell at h; reject_branches
   | fromData n hd => simp only [step] at h; unfold fromData at h; reject_branches
   | grab hd l => simp only [step] at h; unfold grab at h; reject_branches
+  | grabMask hd => simp only [step] at h; unfold grabMask at h; reject_branches
   | hget hd c => simp only [step, Prod.mk.injEq] at h; exact h.1.symm
   | hset hd c v => simp only [step] at h; unfold hset at h; reject_branches
   | hdump hd => simp only [step, Prod.mk.injEq] at h; exact h.1.symm
@@ -80,6 +81,12 @@ theorem C18_layers_step_reject_unchanged {s s' : State} {op : Op} {e : Err}
   | nbhdMask k geom torus c ic r => simp only [step] at h; unfold nbhdMask at h; reject_branches
   | gridSet n => simp only [step] at h; unfold gridSet at h; reject_branches
   | select ms oe conds exts save => simp only [step] at h; reject_branches
+
+/-- the legacy re-binding `layer.data = <held array>` (a transition outside the op language): refused ⇒ unchanged -/
+theorem C18_layers_rebind_reject_unchanged {s s' : State} {l h : Nat} {e : Err}
+    (h : rebind s l h = (s', .err e)) : s' = s := by
+  unfold rebind at h
+  reject_branches
 
 def Out.isErr : Out → Bool
   | .err _ => true
@@ -121,13 +128,13 @@ theorem C18_layers_rejected_calls_invisible (s : State) (ops : List Op) :
 
 /-- non-vacuity: a history in which calls are rejected (clash, duplicate, mis-shaped, unknown name)
     between accepted ones -/
-example : (run (init .new [2, 2] 0)
+example : (run (init .new [2, 2] none)
     [.create "agents" .int 0, .create "a" .int 3, .create "a" .int 4, .newLayer "b" [3, 2] .int 0, .attach 2, .detach "zz",
      .cellSet "a" [1, 1] 7, .cellGet "a" [1, 1]]).2 =
     [.err (.value .clash), .id 1, .err (.value .exists), .id 2, .err (.value .dims), .err .key, .ok, .val 7] := by
   decide
 
-example : (accepted (init .new [2, 2] 0)
+example : (accepted (init .new [2, 2] none)
     [.create "agents" .int 0, .create "a" .int 3, .create "a" .int 4, .newLayer "b" [3, 2] .int 0, .attach 2, .detach "zz",
      .cellSet "a" [1, 1] 7, .cellGet "a" [1, 1]]).length = 4 := by
   decide
